@@ -136,7 +136,8 @@ class CliCtx:
         self.kind_adt = self.prog.adt_of("mutators::MutatorKind")
 
 
-MUT_LISTS = ([], ["Bitflip"], ["All"], ["Memoindex", "Typeconfusion"], ["Boundary", "Offbyone", "Stringlen", "Character"])
+MUT_LISTS = ([], ["Bitflip"], ["All"], ["Memoindex", "Typeconfusion"], ["Boundary", "Offbyone", "Stringlen", "Character"],
+             ["Character", "Bitflip", "Character"])   # not in declaration order, one kind named twice: order and multiplicity are configuration
 
 
 def make_cli(cc, mode, mutlist):
@@ -346,6 +347,45 @@ def rate_is_inert_without_mutators(prog):
     return bad
 
 
+def rate_inert_semantically(env, key):
+    """second opinion for a body the syntactic rule flags: a value loop `fn(&mut self, value, source)` interpreted with an EMPTY
+    mutator list must return its input, decide nothing on mutation_rate and write nothing that mentions it"""
+    import rules_mut
+    prog, ctx = env.prog, env.ctx
+    name = key.split("::")[-1].lstrip("_")
+    val0 = rules_mut.input_for(name)
+    body = prog.bodies.get(key)
+    if val0 is None or body is None or body["arg_count"] != 3:
+        return False
+    mf = H.models_factory(prog, ctx, None)
+
+    def one(run):
+        I = Interp(prog, run, mf())
+        ms = G.AbsMutators(ctx)
+        ms.empty = True
+        h = ctx.make_generator(depth_bound=2, mutators=ms)
+        val = rules_mut.input_for(name)
+        src = G.AbsSource(prog)
+        one.last = (h, val, None)
+        r = I.call(key, [h.ref(), val, Ref(Box_(src, "source"), ())])
+        return (h, val, r)
+    n = 0
+    try:
+        for run, rr, pe in explore(one, max_runs=50):
+            n += 1
+            h, val, r = rr if rr is not None else one.last
+            if pe is not None:
+                return False
+            rate = h.special["mutation_rate"]
+            if not rules_mut.same_value(r, val):
+                return False
+            if any(G.contains_obj(a[0], rate) for a in run.atom_log) or any(G.contains_obj(w, rate) for w in h.out.writes):
+                return False
+    except Unanalysable:
+        return False
+    return n > 0
+
+
 def cli_flag_checks(env, res, rule, only=None):
     """forwarding of Cli values in both modes; `only` restricts reporting to some Cli fields (used by C10)"""
     cc = env.memo("clictx", lambda: CliCtx(env))
@@ -375,7 +415,7 @@ def rule_C13(env):
     nleaves = cli_flag_checks(env, res, "R13.a")
     res.floor("R13.a", 20, "generate() call snapshots")
     # inertness of the one conditionally forwarded setting
-    bad = rate_is_inert_without_mutators(env.prog)
+    bad = [k for k in rate_is_inert_without_mutators(env.prog) if not rate_inert_semantically(env, k)]
     for k in bad:
         res.add("R13.a", "inert/mutation_rate/%s" % k.split("::")[-1], "%s reads mutation_rate on a path where no mutator is registered: --mutation-rate must then be forwarded unconditionally" % k, env.loc(k))
     samples = []
